@@ -208,8 +208,10 @@ impl Recorder {
             _ => json!({"present": false}),
         };
         // the SDK's user-facing quote, for single swaps submitted without an explicit price limit
+        // (also when the program refused the instruction before it reached the swap computation - no hook record -: the
+        // quote is a function of the instruction's arguments and the pre-state only)
         let sdk_user = match (&pre_bank, swaps.first()) {
-            (Some(b), Some(_)) if swaps.len() == 1 && (ix.name == "swap" || ix.name == "swap_v2") && ix.args["limit"] == 0 => {
+            (Some(b), _) if swaps.len() <= 1 && (ix.name == "swap" || ix.name == "swap_v2") && ix.args["limit"] == 0 && w.pools.contains_key(ix.args["pool"].as_str().unwrap_or("")) => {
                 let num = |v: &Value| -> u128 { v.as_str().map(|s| s.parse().unwrap()).unwrap_or_else(|| v.as_u64().unwrap_or(0) as u128) };
                 let names = ix.slot_names();
                 let supplied: Vec<solana_program::pubkey::Pubkey> = names.iter().enumerate().filter(|(_, n)| n.starts_with("tick_array_") || n.starts_with("supplemental_")).map(|(i, _)| ix.metas[i].pubkey).collect();
